@@ -511,6 +511,12 @@ func VH_C03_ReplacementLit() { vhC03(vhDefReplacementLit()) }
 
 func VH_C03_NonASCIINames() { vhC03In(vhDefNonASCIINames(), vhInputASCII()) }
 
+func VH_C04_CaselessNames() { vhC04In(vhDefCaselessNames(), vhInputASCII()) }
+
+func VH_C03_CaselessNames() { vhC03In(vhDefCaselessNames(), vhInputASCII()) }
+
+func VH_C03_FoldPunct() { vhC03In(vhDefFoldPunct(), vhInputASCII()) }
+
 func VH_C04_NonASCIINames() { vhC04In(vhDefNonASCIINames(), vhInputASCII()) }
 
 func VH_C04_Entry_DotAll() { vhC04Entry(vhDefDotAll()) }
